@@ -487,7 +487,8 @@ func RollCommon
   ensures [C04] old(specClamp(1, diceMin, diceMax)) <= glo && ghi <= old(specClamp(dicePoints, diceMin, diceMax))
   ensures [C04] (isKeepLH == 1 || isKeepLH == 4) ==> forall a in [0, len(nums)): forall b in [a, len(nums)): nums[a] <= nums[b]
   ensures [C04] (isKeepLH == 2 || isKeepLH == 3) ==> forall a in [0, len(nums)): forall b in [a, len(nums)): nums[a] >= nums[b]
-  ensures [C04 C14] pickNum == specPick(isKeepLH, times, lowNum, highNum)
+  ensures [C04 C14 C07] pickNum == specPick(isKeepLH, times, lowNum, highNum)
+  ensures [C07] 0 <= pickNum && pickNum <= times
   ensures [C04 C14] result0 == psum(nums, int(pickNum))
   ensures [C15] specPick(isKeepLH, times, lowNum, highNum) * glo <= result0
   ensures [C15] result0 <= specPick(isKeepLH, times, lowNum, highNum) * ghi
